@@ -4,6 +4,7 @@
 From Coq Require Import List NArith ZArith Bool Strings.Byte Strings.String.
 Import ListNotations.
 Require Import Params AddrFull Iauth Line Junk Wf.
+Require AddrV4 AddrRef AddrCompose.
 Local Open Scope list_scope.
 
 (* from start-up on, across reloads: every line ever written renders without LF, CR or NUL; the address of a client message and
@@ -31,3 +32,12 @@ Print Assumptions parser_result_is_an_address.
 Theorem stored_address_text_is_a_word : forall a, word (snd (announce_addr a)) /\ AddrWf.Wf8 (fst (announce_addr a)).
 Proof. exact announce_word. Qed.
 Print Assumptions stored_address_text_is_a_word.
+
+(* "an address text that denotes exactly the address the server announced": the text stored at the announcement and echoed in
+   every message about the client is read back, by the daemon's parser and by the reference parser, as the address the daemon
+   read from the announcement (IPv4-compatible canonicalised to IPv4-mapped) *)
+Theorem echoed_text_denotes_announced_address : forall a,
+  let '(g, txt) := announce_addr a in
+  pton txt false false = Res (List.length txt) None (AddrV4.canon g) /\ AddrRef.ref_pton txt = Some (AddrV4.canon g).
+Proof. exact AddrCompose.echoed_text_denotes_announced. Qed.
+Print Assumptions echoed_text_denotes_announced_address.
